@@ -21,6 +21,9 @@ var domains = map[string]domain{}
 // set by -force-conc: domains that have a concurrent mode always use it
 var forceConc bool
 
+// set when a case left goroutines behind (confirmed blocked): no further case is run in this process
+var poisoned bool
+
 func main() {
 	if len(os.Args) < 2 {
 		fmt.Fprintln(os.Stderr, "usage: h <domain> [-seed N -n COUNT | -replay FILE] -out PREFIX")
@@ -81,7 +84,7 @@ func main() {
 		}
 	}
 	r := NewRng(*seed)
-	for i := 0; i < *n; i++ {
+	for i := 0; i < *n && !poisoned; i++ {
 		emit(d.gen(r))
 	}
 }
